@@ -260,7 +260,7 @@ func c07(p *model.Prog, r *report.Result) {
 		pos = p.InstrPos(hit)
 	}
 	r.Check(!bad, "C07.R1", fkey(conv, "ts-ms", "full-clock"), pos, "rtpTimestamp2Ms multiplies before dividing by the full clock rate", "rtpTimestamp2Ms divides by a truncated clock rate")
-	if n < 6 {
+	if n < 3 { // at least one per unpacker kind (aac, avc/hevc, raw); helpers may share a conversion between branches
 		r.Bad("C07.R1", "floor", "", fmt.Sprintf("only %d time-stamp conversions found in the unpackers", n))
 	}
 
